@@ -35,15 +35,13 @@ def check(world) -> Dict[str, Any]:
     from mc import htaenv
 
     viol: List[Any] = []
-    evs = cpworlds.build(world)
+    ta, rank, evs, m = cpworlds.load(world)
     rows = refmodel.parse_rows(evs)
     by = {r["id"]: r for r in rows}
-    m = min(r["ts"] for r in rows)
-    ta, _ = htaenv.load_world({0: evs})
     execs = 0
     classes_max = 0
     outcome = []
-    for ctx, g in cpworlds.graphs_for(world, ta):
+    for ctx, g in cpworlds.graphs_for(world, ta, rank=rank):
         execs += 1
         nodes = g.node_list
         # attribution of every span / kernel-kernel edge of the graph
